@@ -4,6 +4,7 @@ The solve phase of `detail::inverse` (forward / backward substitution per unit v
 final copy, and the main result: `B · inverse(B) = 1` entrywise for every nonsingular `B`.
 -/
 namespace Amgcl
+open Arr2
 open Finset
 
 variable {K : Type} [Field K]
